@@ -8,7 +8,6 @@ import (
 	"runtime"
 	"strconv"
 	"strings"
-	"unicode"
 
 	"github.com/robfig/soy/ast"
 	"github.com/robfig/soy/data"
@@ -1435,7 +1434,9 @@ func isOneOf(tocheck itemType, against []itemType) bool {
 
 func allSpace(str string) bool {
 	for _, ch := range str {
-		if !unicode.IsSpace(ch) {
+		// (only what the line joining rule treats as whitespace: a no-break space
+		// or a form feed is text, which cannot stand here.)
+		if !isSpaceEOL(ch) {
 			return false
 		}
 	}
